@@ -11,6 +11,8 @@ import (
 
 	"berty.tech/go-ipfs-log/entry"
 	cid "github.com/ipfs/go-cid"
+	cbornode "github.com/ipfs/go-ipld-cbor"
+	mh "github.com/multiformats/go-multihash"
 
 	"verifharness/fw"
 	"verifharness/sim"
@@ -31,7 +33,7 @@ func init() {
 	})
 }
 
-var c10Bad = []string{"non-writer", "forged-sig-fails", "forged-identity", "forged-own-key", "forged-id-key-bad-sigs", "forged-dangling-next", "wrong-database", "wrong-hash", "wrong-hash-unrelated"}
+var c10Bad = []string{"non-writer", "forged-sig-fails", "forged-identity", "forged-own-key", "forged-id-key-bad-sigs", "forged-dangling-next", "forged-junk-nexts", "wrong-database", "wrong-hash", "wrong-hash-unrelated"}
 var c10Place = []string{"same", "before", "after"}
 
 func c10Cases(tier string, seed int64) []fw.Case {
@@ -225,6 +227,21 @@ func c10Run(c fw.Case) fw.Verdict {
 				return nil, err
 			}
 			return A.Forge(fBlockVictimKey, db.Addr, opPayload(typ, 50+i, "x"), []cid.Cid{dangling}, nil, maxT+1+i, victim)
+		case "forged-junk-nexts":
+			// passes the pre-check like the previous kind; its 40 `next` name blocks that exist but are
+			// not log entries: 40 fetches that fail, more than the replicator has fetch slots
+			var junk []cid.Cid
+			for j := 0; j < 40; j++ {
+				nd, err := cbornode.WrapObject(map[string]interface{}{"junk": fmt.Sprintf("%d-%d-%d", c.Seed, i, j)}, mh.SHA2_256, -1)
+				if err != nil {
+					return nil, err
+				}
+				if err := A.P.API.Dag().Add(bg, nd); err != nil {
+					return nil, err
+				}
+				junk = append(junk, nd.Cid())
+			}
+			return A.Forge(fBlockVictimKey, db.Addr, opPayload(typ, 50+i, "x"), junk, nil, maxT+1+i, victim)
 		case "forged-own-key":
 			return A.Forge(fBlockOwnKey, db.Addr, opPayload(typ, 50+i, "x"), vh, nil, maxT+1+i, victim)
 		case "wrong-database":
@@ -296,6 +313,11 @@ func c10Run(c fw.Case) fw.Verdict {
 	dangling := bad == "forged-dangling-next"
 	idle := sim.IdleOpts{BlockedOK: dangling, IgnoreReplicators: dangling}
 	if !e.W.WaitIdle(idle) {
+		if e.W.Wedged(confirmWindow()) {
+			st, _ := replState(sR)
+			return fw.Verdict{Status: fw.Violated, Key: fmt.Sprintf("bad=%s/outcome=wedged", bad), NonTrivial: true, Sig: fw.HashSig(nv, bad, place, pos, typ, fresh),
+				What: fmt.Sprintf("after a %s head the replica never comes to rest although nothing runs, no fetch is parked and nothing is in flight: pending %v, replicator %s", bad, e.H.Detail(), st)}
+		}
 		return fw.Verdict{Status: fw.Inconclusive, What: "rest not reached after announcements: " + fmt.Sprint(e.H.Detail())}
 	}
 	// honest re-announcement of the valid heads only
@@ -360,6 +382,11 @@ func c10Run(c fw.Case) fw.Verdict {
 	if !ok {
 		// negative verdict: confirm rest
 		if !e.W.WaitIdle(sim.IdleOpts{Stable: confirmWindow(), Watchdog: 60 * time.Second, BlockedOK: dangling, IgnoreReplicators: dangling}) {
+			if e.W.Wedged(confirmWindow()) {
+				st, _ := replState(sR)
+				return fw.Verdict{Status: fw.Violated, Key: fmt.Sprintf("bad=%s/outcome=wedged", bad), NonTrivial: true, Sig: v.Sig,
+					What: fmt.Sprintf("after a %s head and the re-announcement of the valid heads the replica never comes to rest although nothing runs, no fetch is parked and nothing is in flight: pending %v, replicator %s", bad, e.H.Detail(), st)}
+			}
 			return fw.Verdict{Status: fw.Inconclusive, What: "rest not reached before negative verdict", Sig: v.Sig}
 		}
 		if ok, missing = held(); !ok {
